@@ -3,6 +3,7 @@ import PhyloModel.Newick.Writer
 import PhyloModel.Split.Model
 import PhyloModel.Matrix.Store
 import PhyloModel.Matrix.Phylip
+import PhyloModel.Dist.Fold
 /-! Line-protocol driver: runs the executable definitions of the model, one request per line
     (tab-separated fields), one answer line per request.  See /verif/PROTOCOL.md.
     Unknown or ill-formed requests answer `bad-op`; nothing is ever defaulted. -/
@@ -304,6 +305,14 @@ def dispatch (st : DState) (fs : List String) : DState × String :=
   | ["ar.swap"] => ({ st with ar := st.ar2, ar2 := st.ar }, "ok")
   | "sp" :: q => match spQuery st.ar st.ar2 q with | some r => (st, r) | none => bad
   | ["nop"] => (st, "ok")
+  | "dm" :: q =>
+    let enc (r : List String × List Int) : String :=
+      (if r.1.isEmpty then "_" else ",".intercalate (r.1.map hexEnc)) ++ " | " ++ " ".intercalate (r.2.map toString)
+    match q with
+    | ["fast", u] => match u.toInt? with | some u => (st, encQR enc (DMF.dmFast st.ar u)) | none => bad
+    | ["rose", u] => match u.toInt? with | some u => (st, encQR enc (DMF.dmRose st.ar u)) | none => bad
+    | ["rec"] => (st, encQR enc (DMF.dmRecursive st.ar))
+    | _ => bad
   | ["ph.parse", entry, hx] => match hexDec hx with
     | some text =>
       let r := match entry with
